@@ -2,12 +2,12 @@ import MJ.Model.Eval
 import MJ.Model.Compile
 import MJ.Model.Vm
 import MJ.Model.VmM
-import MJ.Proofs.StmtSim
+import MJ.Proofs.Scoping
 /-!
 Line driver for C03 (reference interpreter).
 
 input :  `<id>\t<ctx s-expr>\t<program s-expr>`
-output:  `<id>\t<exec result>\t<model code>\t<model VM result on the model code>\t<frag3|->\t<extended model VM result>` with result `ok:<hex of utf-8 output>` | `err:<class>` |
+output:  `<id>\t<exec result>\t<model code>\t<model VM result on the model code>\t<frag3|-:why>\t<extended model VM result>` with result `ok:<hex of utf-8 output>` | `err:<class>` |
          `bad-case:<why>` and model code `(code …)` (same syntax as the harness dump of the real
          instruction stream) or `oof` when the program leaves the fragment of `MJ.Compile`
 
@@ -322,9 +322,30 @@ structure Case where
 def toCase : SExp → Option Case
   | .list [.atom "wrap", .atom kind, p, t] =>
     match toBlock p, toBlock t with
-    | some p, some t => some { prog := p, tail := t, discard := ["child", "from", "import", "block", "macro"].contains kind }
+    | some p, some t => some { prog := p, tail := t, discard := ["child", "from", "import", "block", "macro", "rustkw"].contains kind }
     | _, _ => none
   | x => (toBlock x).map fun p => { prog := p }
+
+mutual
+  /-- does a macro / call block of the program have a parameter default? -/
+  partial def hasDefaults : Stmt → Bool
+    | .ifS _ t f => anyDefaults t || anyDefaults f
+    | .forS _ _ _ body els => anyDefaults body || anyDefaults els
+    | .setBlock _ _ body => anyDefaults body
+    | .withS _ body => anyDefaults body
+    | .filterBlock _ body => anyDefaults body
+    | .macroS _ _ defaults body _ => !defaults.isEmpty || anyDefaults body
+    | .callBlock _ _ _ defaults body _ => !defaults.isEmpty || anyDefaults body
+    | _ => false
+  partial def anyDefaults : List Stmt → Bool
+    | [] => false
+    | s :: rest => hasDefaults s || anyDefaults rest
+end
+
+/-- why a program is outside the fragment of the refinement theorem (coarse) -/
+def whyOutside (prog : List Stmt) : String :=
+  if anyDefaults prog then "parameter default that calls a macro or reads a parameter, or a reason of the next line"
+  else "macro used as a value / explicit caller= / call of a name that is no declared macro / read not enclosed"
 
 def showRes : MJ.Eval.Res String → String
   | .ok out => s!"ok:{hexOf out}"
@@ -345,9 +366,9 @@ def handle (line : String) : String :=
       let vm := match MJ.Compile.compileTemplate whole with
         | none => "-"
         | some code =>
-          match (if c.discard then MJ.Vm.renderCodeAfter 200000 ctx code boundary else MJ.Vm.renderCode 200000 ctx code) with
+          match (if c.discard then MJ.Vm.renderCodeAfter 20000 ctx code boundary else MJ.Vm.renderCode 20000 ctx code) with
           | .ok out => s!"ok:{hexOf out}"
-          | .error .outOfFragment => "-"      -- macro instructions: see the extended VM below
+          | .error .outOfFragment => "-"      -- `CallObject` (a call of a value): see the extended VM below
           | .error e => s!"err:{errName e}"
       -- the extended model VM (macros, calls, live loop object) on the model code
       let vmM := match MJ.Compile.compileTemplate whole with
@@ -355,7 +376,7 @@ def handle (line : String) : String :=
         | some code =>
           showRes (if c.discard then MJ.VmM.renderCodeAfterM 4000 ctx code boundary else MJ.VmM.renderCodeM 4000 ctx code)
       -- is the program in the fragment for which the refinement theorem is proved?
-      let frag := if MJ.Compile.simpleBlock false whole then "frag3" else "-"
+      let frag := if decide (MJ.Compile.CoreFragment whole) then "frag3" else s!"-:{whyOutside whole}"
       s!"{id}\t{res}\t{codeStr whole}\t{vm}\t{frag}\t{vmM}"
     | none, _ => s!"{id}\tbad-case:ctx"
     | _, none => s!"{id}\tbad-case:prog"
